@@ -30,6 +30,7 @@ type Fld struct {
 	// BlockLines is a "/* */" doc block above the field spanning these lines
 	// (joined by the style's line ending and the body indentation)
 	BlockLines []string
+	Trail      string // end-of-line "//" comment after the field ("" = none)
 }
 
 type Opt struct {
@@ -56,6 +57,7 @@ type Def struct {
 	OpV      uint32
 	Fields   []Fld
 	Branches []Br
+	Trail    string // "//" comment after the closing brace, on the same line
 	CType    string // const type
 	CLit     []byte // const literal text
 	Import   string
@@ -75,6 +77,9 @@ type Style struct {
 	NL      []byte // line ending
 	gaps    int    // symbolic separators still available
 	Tab     bool   // indent with tabs
+	// DeprSame puts a [deprecated("..")] attribute on the same line as the
+	// element it annotates instead of on a line of its own
+	DeprSame bool
 }
 
 // sep is mandatory horizontal whitespace: the first few are a symbolic byte
@@ -183,8 +188,27 @@ func commentOf(block []string, doc string, s *Style, ind []byte) string {
 	return c
 }
 
+// trail renders an end-of-line comment (multi-line layouts only).
+func trail(s *Style, text string) []byte {
+	if text == "" || s.OneLine {
+		return nil
+	}
+	return app(nil, " //", text)
+}
+
 func printDepr(b []byte, s *Style, ind []byte, msg string) []byte {
+	if s.DeprSame {
+		return b
+	}
 	return app(b, ind, "[deprecated(\"", msg, "\")]", s.NL)
+}
+
+// deprInline is the attribute text when it shares the line with its element.
+func deprInline(s *Style, depr bool, msg string) []byte {
+	if !depr || !s.DeprSame || s.OneLine {
+		return nil
+	}
+	return app(nil, "[deprecated(\"", msg, "\")] ")
 }
 
 func (d Def) print(b []byte, s *Style, ind []byte) []byte {
@@ -220,9 +244,9 @@ func (d Def) print(b []byte, s *Style, ind []byte) []byte {
 			if o.Depr && !s.OneLine {
 				b = printDepr(b, s, inner, o.DeprM)
 			}
-			b = app(b, inner, o.Name, " = ", o.Lit, ";", s.eol())
+			b = app(b, inner, deprInline(s, o.Depr, o.DeprM), o.Name, " = ", o.Lit, ";", s.eol())
 		}
-		return app(b, ind, "}", s.NL)
+		return app(b, ind, "}", trail(s, d.Trail), s.NL)
 	case "struct":
 		if d.ReadOnly {
 			b = app(b, ind, "readonly", s.sep(), "struct", s.sep(), d.Name, " {", s.eol())
@@ -237,11 +261,11 @@ func (d Def) print(b []byte, s *Style, ind []byte) []byte {
 			if f.Depr && !s.OneLine {
 				b = printDepr(b, s, inner, f.DeprM)
 			}
-			b = app(b, inner)
+			b = app(b, inner, deprInline(s, f.Depr, f.DeprM))
 			b = f.Ty.print(b)
-			b = app(b, s.sep(), f.Name, ";", s.eol())
+			b = app(b, s.sep(), f.Name, ";", trail(s, f.Trail), s.eol())
 		}
-		return app(b, ind, "}", s.NL)
+		return app(b, ind, "}", trail(s, d.Trail), s.NL)
 	case "message":
 		b = app(b, ind, "message", s.sep(), d.Name, " {", s.eol())
 		for _, f := range d.Fields {
@@ -252,20 +276,25 @@ func (d Def) print(b []byte, s *Style, ind []byte) []byte {
 			if f.Depr && !s.OneLine {
 				b = printDepr(b, s, inner, f.DeprM)
 			}
-			b = app(b, inner, f.Index, " -> ")
+			b = app(b, inner, deprInline(s, f.Depr, f.DeprM), f.Index, " -> ")
 			b = f.Ty.print(b)
-			b = app(b, s.sep(), f.Name, ";", s.eol())
+			b = app(b, s.sep(), f.Name, ";", trail(s, f.Trail), s.eol())
 		}
-		return app(b, ind, "}", s.NL)
+		return app(b, ind, "}", trail(s, d.Trail), s.NL)
 	case "union":
 		b = app(b, ind, "union", s.sep(), d.Name, " {", s.eol())
 		for _, br := range d.Branches {
+			bd := br.Def
+			if bd.Doc != "" && !s.OneLine {
+				b = app(b, inner, "//", bd.Doc, s.NL)
+			}
+			bd.Doc = ""
 			if br.Depr && !s.OneLine {
 				b = printDepr(b, s, inner, br.DeprM)
 			}
-			b = app(b, inner, br.Index, " -> ")
+			b = app(b, inner, deprInline(s, br.Depr, br.DeprM), br.Index, " -> ")
 			// the branch definition follows on the same line
-			sub := br.Def.print(nil, s, inner)
+			sub := bd.print(nil, s, inner)
 			// strip the leading indentation of the nested definition
 			b = app(b, sub[len(inner):])
 		}
